@@ -67,12 +67,15 @@ class HashCalls:
 
 
 def canonical_bits(e, x, nbits=255):
-    """(bits, [fact_1, fact_2]): WITNESS for `exists b in {0,1}^nbits. b is the binary representation of the integer x
+    """(bits, steps): WITNESS for `exists b in {0,1}^nbits. b is the binary representation of the integer x
     (the canonical representative in [0, p) of the cell)`: the system's own binary digits of the cell x (found by
     following its linear decomposition rows; a heuristic that only SELECTS the witness) and the SMT Bool `fact`
     that has to be PROVED of them: every b_i is 0 or 1 and  sum b_i 2^i = x  OVER THE INTEGERS (not just modulo
     p: for nbits = 255 a field element below 2^255 - p has two 255-bit representations), i.e.
-    b_i = (x div 2^i) mod 2."""
+    b_i = (x div 2^i) mod 2.
+    `steps` = [(name, formula, keep, slice)] for prove_then_assume: the two claims ("bits", "sum") and two auxiliary
+    lemmas that lead the solvers to "sum" (S = x or S = x + p; b_0 = x mod 2); the auxiliary lemmas are NOT part of
+    the specification, they are only tried and, when proved, used."""
     dg = e.flatten_digits(x) if not isinstance(x, int) else None
     if not dg or len(dg) != nbits or any(c != (1 << i) or e.bound(a) > 2 for i, (c, a) in enumerate(dg)):
         raise NotImplementedError("cannot locate the binary digits of the path index in the extracted system")
@@ -80,6 +83,9 @@ def canonical_bits(e, x, nbits=255):
     S = e.named_sum([(1 << i, b) for i, b in enumerate(bits)])
     # parity helper (definitional): R := sum_{i>=1} b_i 2^(i-1), so that S = b_0 + 2 R. Measured: with R named the
     # portfolio proves x = S in 2 s, without it not in 60 s (the argument is: S in {x, x + p}, b_0 = x mod 2, p odd).
+    # and (px, hx) := (x mod 2, x div 2) as fresh lo/hi variables (definitional: they exist and are unique).
+    px, hx = e.fresh("px", 0, 1), e.fresh("hx", 0, e.P // 2)
+    e.lines.append(f"(assert (= {_A(x)} (+ {px} (* 2 {hx}))))")
     R = e.fresh("Rh", 0, (1 << (nbits - 1)) - 1)
     e.lines.append(f"(assert (= {R} {e.lin_smt([(1 << (i - 1), b) for i, b in enumerate(bits) if i >= 1], 0)}))")
     if not S.startswith("("):
@@ -90,10 +96,55 @@ def canonical_bits(e, x, nbits=255):
                      "(assert (= pS " + e.lin_smt([(1 << i, f"pb{i}") for i in range(nbits)], 0) + "))",
                      "(assert (= pR " + e.lin_smt([(1 << (i - 1), f"pb{i}") for i in range(1, nbits)], 0) + "))"]
             e.side.append(("parity-split-of-binary-sum", decls, "(= pS (+ pb0 (* 2 pR)))"))
-    return bits, [AND(*[isbit(b) for b in bits]), eq(x, S)]
+    P = e.P
+    kmax = ((1 << nbits) - 1) // P
+    # "b is 0 or 1" is stated as the two bounds 0 <= b <= 1 (the same thing over the integers): measured, 255 added
+    # disjunctions `b = 0 or b = 1` slow z3 down 40x on the later lemmas, bounds do not
+    steps = [("bits", AND(*[f"(<= 0 {_A(b)}) (<= {_A(b)} 1)" for b in bits])),
+             ("sum-mod-p", OR(*[eq(S, f"(+ {_A(x)} {k * P})") for k in range(kmax + 1)])),      # auxiliary lemma
+             ("lsb-is-parity", eq(bits[0], px), True, (6, 24)),                                # auxiliary lemma (slice)
+             ("sum", eq(x, S), True, (2, 8))]                                                  # the claim
+    return bits, steps
 
 
 STATS = {"lemma_queries": 0, "lemma_proved": 0, "solver_s": 0.0}
+
+import re as _re
+_TOK = _re.compile(r"[A-Za-z_][A-Za-z0-9_]*")
+
+
+def sliced_text(e, goal, depth=6, max_width=24):
+    """SMT text of `not goal` under a SUBSET of the encoder's assertions: those reachable from the goal's
+    variables in at most `depth` steps through assertions mentioning at most `max_width` distinct variables
+    (wide assertions - the 255-term sums - are left out unless the goal itself names their defined variable).
+    Proving a lemma from fewer hypotheses is sound; measured: the same lemma that takes 2 s in its slice is not
+    found in 60 s in the full context. Declarations and function definitions are always kept."""
+    decl, asserts = [], []
+    names = set()
+    for l in e.lines:
+        if l.startswith("(assert"):
+            asserts.append(l)
+        else:
+            decl.append(l)
+            if l.startswith("(declare-const"):
+                names.add(l.split()[1])
+    avars = [set(t for t in _TOK.findall(l) if t in names) for l in asserts]
+    cur = set(t for t in _TOK.findall(goal) if t in names)
+    taken = set()
+    for _ in range(depth):
+        new = set()
+        for i, vs in enumerate(avars):
+            if i in taken or not vs or len(vs) > max_width or not (vs & cur):
+                continue
+            taken.add(i)
+            new |= vs
+        if not (new - cur):
+            break
+        cur |= new
+    for i, vs in enumerate(avars):          # bounds / unary facts of every variable reached
+        if i not in taken and len(vs) == 1 and (vs & cur):
+            taken.add(i)
+    return "(set-logic ALL)\n" + "\n".join(decl) + "\n" + "\n".join(asserts[i] for i in sorted(taken)) + f"\n(assert (not {goal}))\n"
 
 
 def prove_then_assume(e, parts, timeout=60):
@@ -111,7 +162,9 @@ def prove_then_assume(e, parts, timeout=60):
         name, f = part[0], part[1]
         keep = part[2] if len(part) > 2 else True      # False: proved on its own but not added (measured: 255
         #                                                redundant `b = 0 or b = 1` disjunctions slow z3 down 40x)
-        r = solvers.solve(e.text([f"(assert (not {f}))"]), timeout=timeout)
+        sl = part[3] if len(part) > 3 else None        # (depth, max_width): prove from a slice of the system
+        text = sliced_text(e, f, *sl) if sl else e.text([f"(assert (not {f}))"])
+        r = solvers.solve(text, timeout=timeout)
         STATS["lemma_queries"] += 1
         STATS["solver_s"] += r.time_s
         if r.status == "unsat":
@@ -244,3 +297,73 @@ class use_encoder:
 
     def __exit__(self, *a):
         csmt.Enc = self.orig
+
+
+# ------------------------------------------------------------------- honest run violates the specification
+def honest_wrong_pass(run, family, entries, only=None):
+    """cengine.decide answers INCONCLUSIVE ("vacuity twin ... came back unsat") when the real chip's OWN honest
+    run does not meet the specification: a functional defect (wrong result computed in-circuit), for which no
+    forging is needed. That case is decided here: with every cell pinned to the honest assignment (which the real
+    MockProver accepted: honest_verify) the portfolio must answer `unsat` for the specification and `sat` for its
+    negation; then the obligation is a VIOLATION whose replay is the honest run itself (the replay file overrides
+    one instance cell with its own honest value, so the generic replayer re-runs the real prover and reports
+    `accepted`)."""
+    from . import cengine, solvers
+    byid, seen = {}, {}
+    for ent in entries:
+        oid = f"{family}/{ent['op']}[{cengine.pstr(ent['params'])}]"
+        if oid in seen:
+            seen[oid] += 1
+            oid += f"#{seen[oid]}"
+        else:
+            seen[oid] = 0
+        byid[oid] = ent
+    for ob in list(run.obs):
+        ent = byid.get(ob.id)
+        if ent is None or ob.status != core.INCONCLUSIVE:
+            continue
+        if "honest run inconsistent" in (ob.detail or ""):
+            # cengine.decide tests the consistency of the honest copy classes before it looks at the real
+            # prover's verdict: an honest witness that breaks a copy constraint IS a rejected honest witness
+            try:
+                system = cengine.extract(family, ent["op"], ent["params"], ent["ins"], ent["k"])
+                if system.d.get("honest_verify") is False:
+                    ob.key = ob.key + ":honest-rejected"
+                    path = run.write_replay(ob, dict(kind="honest-rejected", cx=cengine.cx_args(family, ent["op"], ent["params"], ent["ins"], ent["k"])))
+                    ob.set(core.VIOLATION, f"real MockProver rejects the honest witness of {ent['op']} {cengine.pstr(ent['params'])} on admissible inputs {ent['ins']} ({ob.detail})", replay=path)
+                    run.log(f"{ob.status:12s} {ob.id} honest witness rejected")
+            except Exception as ex:  # noqa
+                ob.detail += f" | honest-rejected pass failed: {ex!r}"
+            continue
+        if "vacuity twin" not in (ob.detail or ""):
+            continue
+        try:
+            system = cengine.extract(family, ent["op"], ent["params"], ent["ins"], ent["k"])
+            if not system.d.get("honest_verify"):
+                continue
+            e = csmt.Enc(system)
+            e.extra = system.d.get("extra", {})
+            e.encode(ent.get("monomial", False))
+            Iat = [e.v(c) for c in system.ins]
+            Oat = [e.v(c) for c in system.outs]
+            e._pta_done = True          # no lemma chain here: everything is pinned
+            spec_smt = ent["spec"](e, Iat, Oat)
+            honest = system.honest_assign()
+            exact = e.exact_atoms({n: honest.get(c, 0) for c, n in e.vars.items()})
+            pins = [f"(assert (= {n} {v}))" for n, v in exact.items()]
+            r1 = solvers.solve(e.text(pins + [f"(assert {spec_smt})"]), timeout=60)
+            r2 = solvers.solve(e.text(pins + [f"(assert (not {spec_smt}))"]), timeout=60)
+            ob.queries += 2
+            ob.solver_s += r1.time_s + r2.time_s
+            if r1.status == "unsat" and r2.status == "sat":
+                iv = {c: hex(system.honest[c]) for c in system.ins + system.outs}
+                c0 = (system.ins + system.outs)[0]
+                ob.key = ob.key + ":honest-output-wrong"
+                path = run.write_replay(ob, dict(kind="forged-assignment", cx=cengine.cx_args(family, ent["op"], ent["params"], ent["ins"], ent["k"]),
+                                                 overrides={c0: hex(system.honest[c0])}, instance=iv,
+                                                 note="the honest run of the real chip itself: the real MockProver accepts it and its (inputs, outputs) on the instance column violate the operation's specification"))
+                ob.set(core.VIOLATION, f"{ent['op']} {cengine.pstr(ent['params'])}: the real chip's own honest run (accepted by the real MockProver) has instance {iv} which violates the specification",
+                       solver=r2.solver, replay=path)
+                run.log(f"{ob.status:12s} {ob.id} honest run violates the specification")
+        except Exception as ex:  # noqa
+            ob.detail += f" | honest-output pass failed: {ex!r}"
